@@ -6,7 +6,8 @@ Cases (JSON):
                          | {"how": "names",  "names": [...],  "rows": [[vid, ...], ...]}
                          | {"how": "dicts",  "dicts": [[[key, vid], ...], ...]},
                    "entries": [REC, ...]}
-  REC  = {"k": "dict" | "mapping" | "tuple" | "scalar", "items": [[key, vid], ...]}
+  REC  = {"k": "dict" | "ordereddict" | "counter" | "defaultdict" | "dictsub" (dict subclasses) | "mapping" (MutableMapping, not a dict)
+               | "tuple" | "scalar", "items": [[key, vid], ...]}      (items in the record's key order)
   type = an OrsoTypes member name | "" (type argument omitted) | "0" (the integer 0 a restored untyped column carries)
   vid  = index into POOL (vid 0 is None).  Column names / keys come from NAMES.
 Observations: see observe()."""
@@ -37,7 +38,7 @@ LEVEL_NOTE = ("Trusted: Coq kernel + vm_compute; the hand-written model (values 
               "declared per pool value and validated by the correspondence, not derived (msgpack is C01's subject); the error-category strings of "
               "DataValidationError.errors are read literally by the harness. Acceptance by append = validates AND the row can be sized "
               "(2**70 validates as INTEGER but append raises TypeError and stores nothing - the disposition of F-C05-1). "
-              "Records are dicts or other mappings alike (F-C05-2 fixed by 4269430; its witness is in corpus()). Outside the quantifier, modelled "
+              "Records are exact dicts, dict-subclass instances and other mappings alike (F-C05-2 fixed by 4269430, F-C02-3 by 9637b46; witnesses in corpus()). Outside the quantifier, modelled "
               "as raising and covered by the atomicity / acceptance theorems only: NULL-typed columns (TypeError), tuple/scalar entries.")
 DESIGN_REF = "DESIGN.md section 8, C05"
 COQ_IMPORTS = "From Orso Require Import Gen.C05_Types Model.C05."
@@ -46,7 +47,7 @@ COQ_SHOW = {"validate": "c05_validate_show", "hist": "c05_hist_show"}
 RULE = ("validate stream: the complete decision table (every OrsoTypes member and both untyped forms x nullable x one value of every class in "
         "the pool, incl. subclass pairs) on a one-column schema, then random schemas of 1..6 columns (typed/untyped/NULL, nullable or not, "
         "occasionally duplicate names) x records with every column independently missing/null/right/right-by-subclass/wrong plus 0..2 excess keys, "
-        "as dict / non-dict mapping / tuple / scalar; hist stream: frames created empty, from rows (RelationSchema or name list) or from "
+        "as dict / dict subclass (OrderedDict, Counter, defaultdict, user subclass) / non-dict mapping / tuple / scalar; hist stream: frames created empty, from rows (RelationSchema or name list) or from "
         "dictionaries, 1..8 appends mixing conforming, unserialisable and non-conforming records, observing rows/_nbytes/_cursor after every "
         "append and the error's .errors/.columns; non-trivial = at least one column check or one append happened; distinct by canonical JSON")
 TRUSTED = [
@@ -322,11 +323,29 @@ def _mk_schema(cols):
     return RelationSchema(name="t", columns=out)
 
 
+class _UserDict(dict):
+    """A user-defined dict subclass."""
+
+
+DICT_SUBCLASS_KINDS = ("ordereddict", "counter", "defaultdict", "dictsub")
+RECORD_KINDS = ("dict",) + DICT_SUBCLASS_KINDS + ("mapping",)
+
+
 def _mk_entry(rec):
     items = [(k, val(v)) for k, v in rec["items"]]
     k = rec["k"]
     if k == "dict":
         return dict(items)
+    if k == "ordereddict":
+        return collections.OrderedDict(items)
+    if k == "counter":
+        c = collections.Counter()
+        dict.update(c, items)  # a Counter holding arbitrary values; c[missing] answers 0 without storing it
+        return c
+    if k == "defaultdict":
+        return collections.defaultdict(int, items)  # d[missing] would store the key with value 0
+    if k == "dictsub":
+        return _UserDict(items)
     if k == "mapping":
         return _Mapping(items)
     if k == "tuple":
@@ -371,13 +390,22 @@ def _rows_of(df):
     return [[_cell(x) for x in tuple(r)] for r in df._rows]
 
 
+def _keys_after(rec, entry):
+    """The record's keys after the call (a defaultdict must not have gained any); None for non-records."""
+    if rec["k"] in RECORD_KINDS:
+        return [str(k) for k in entry.keys()]
+    return None
+
+
 def observe(case):
     from orso.dataframe import DataFrame
 
     if case["kind"] == "validate":
         schema = _mk_schema(case["schema"])
         entry = _mk_entry(case["rec"])
-        return _outcome(lambda: schema.validate(entry))
+        out = _outcome(lambda: schema.validate(entry))
+        out["keys_after"] = _keys_after(case["rec"], entry)
+        return out
     init = case["init"]
     if init["how"] == "schema":
         df = DataFrame(rows=[tuple(val(v) for v in r) for r in init["rows"]], schema=_mk_schema(init["schema"]))
@@ -392,7 +420,7 @@ def observe(case):
     for rec in case["entries"]:
         entry = _mk_entry(rec)
         out = _outcome(lambda: df.append(entry))
-        obs["steps"].append({"out": out, "rows": _rows_of(df), "count": df.rowcount,
+        obs["steps"].append({"out": out, "rows": _rows_of(df), "count": df.rowcount, "keys_after": _keys_after(rec, entry),
                              "nb": df._nbytes is not None, "cur": df._cursor is not None})
     return obs
 
@@ -492,6 +520,8 @@ def _oracle(case, obs):
         rec = case["rec"]
         if rec["k"] in ("tuple", "scalar"):
             return None if obs["v"] == "raise" else f"validating a non-mapping must raise, got {obs}"
+        if obs["keys_after"] != [k for k, _ in rec["items"]]:
+            return f"validate must not change the record: keys were {[k for k, _ in rec['items']]}, are {obs['keys_after']}"
         exp = _expected_validation(case["schema"], rec)
         if exp is None:
             return None
@@ -522,7 +552,9 @@ def _oracle(case, obs):
             if st["rows"] != rows:
                 return f"{where}: the append raised {out} but the rows changed from {rows} to {st['rows']}"
         must_accept = None
-        if rec["k"] in ("dict", "mapping"):
+        if rec["k"] in RECORD_KINDS and st["keys_after"] != [k for k, _ in rec["items"]]:
+            return f"{where}: append must not change the record: keys were {[k for k, _ in rec['items']]}, are {st['keys_after']}"
+        if rec["k"] in RECORD_KINDS:
             new_row = [d.get(n, 0) for n in names]
             sizable = all(pool()[v][2] for v in new_row)
             if cols is not None:
@@ -578,7 +610,8 @@ def _coq_items(items):
     return L.lst("(%s, %s)" % (L.N(KEY_ID[k]), _coq_val(v)) for k, v in items)
 
 
-_KIND = {"dict": "KDict", "mapping": "KMapping", "tuple": "KTuple", "scalar": "KScalar"}
+_KIND = {"dict": "KDict", "ordereddict": "KDictSub", "counter": "KDictSub", "defaultdict": "KDictSub", "dictsub": "KDictSub",
+         "mapping": "KMapping", "tuple": "KTuple", "scalar": "KScalar"}
 
 
 def _coq_entry(rec):
@@ -651,6 +684,29 @@ def corpus():
            "entries": [{"k": "mapping", "items": [["c1", 6], ["x0", 2]]}, {"k": "mapping", "items": [["c0", 28]]}]}
     yield {"kind": "hist", "init": {"how": "names", "names": ["c0", "c1"], "rows": []},
            "entries": [{"k": "mapping", "items": [["c1", 4], ["c0", 3]]}]}
+    # F-C02-3 (fixed by 9637b46): a record given as a dict SUBCLASS validated, then Row() raised TypeError.  OrderedDict in both key
+    # orders, Counter, defaultdict with a missing column (None in the row, no key gained), user subclass; empty / row-built / dictionary-built
+    sub_entries = [
+        {"k": "ordereddict", "items": [["c0", 2], ["c1", 5]]},
+        {"k": "ordereddict", "items": [["c1", 6], ["c0", 3]]},
+        {"k": "counter", "items": [["c0", 2], ["c1", 5]]},
+        {"k": "defaultdict", "items": [["c1", 5]]},
+        {"k": "dictsub", "items": [["c1", 6], ["c0", 1]]},
+        {"k": "defaultdict", "items": [["c0", 28], ["c1", 5]]},
+        {"k": "counter", "items": [["c1", 2], ["c0", 2]]},
+        {"k": "ordereddict", "items": [["c1", 5], ["x0", 2], ["c0", 2]]},
+    ]
+    sch2 = [["c0", "INTEGER", True], ["c1", "VARCHAR", False]]
+    yield {"kind": "hist", "init": {"how": "schema", "schema": sch2, "rows": []}, "entries": sub_entries}
+    yield {"kind": "hist", "init": {"how": "schema", "schema": sch2, "rows": [[3, 5]]}, "entries": sub_entries}
+    yield {"kind": "hist", "init": {"how": "schema", "schema": [["c0", "INTEGER", True]], "rows": []},
+           "entries": [{"k": "ordereddict", "items": [["c0", 2]]}]}
+    yield {"kind": "hist", "init": {"how": "names", "names": ["c0", "c1"], "rows": [[2, 5]]}, "entries": sub_entries}
+    yield {"kind": "hist", "init": {"how": "dicts", "dicts": [[["c0", 2], ["c1", 5]]]}, "entries": sub_entries}
+    yield {"kind": "hist", "init": {"how": "dicts", "dicts": []}, "entries": sub_entries[:5]}
+    for kd in DICT_SUBCLASS_KINDS:
+        yield {"kind": "validate", "schema": sch2, "rec": {"k": kd, "items": [["c1", 5], ["c0", 2]]}}
+        yield {"kind": "validate", "schema": sch2, "rec": {"k": kd, "items": [["c0", 5]]}}
     yield {"kind": "hist", "init": {"how": "dicts", "dicts": [[["c0", 2], ["c1", 5]]]},
            "entries": [{"k": "dict", "items": [["c0", 3], ["c1", 6]]}, {"k": "dict", "items": [["c1", 2]]}]}
     yield {"kind": "hist", "init": {"how": "dicts", "dicts": []}, "entries": [{"k": "dict", "items": [["c0", 3]]}]}
@@ -787,8 +843,14 @@ def _rand_record(rng, cols, p_good, names=None, in_hist=True):
                 items.append([x, rng.randrange(len(pool()))])
     rng.shuffle(items)
     r = rng.random()
-    pm = 0.12
-    k = "dict" if r < 0.94 - pm else "mapping" if r < 0.94 else "tuple" if r < 0.98 else "scalar"
+    if r < 0.68:
+        k = "dict"
+    elif r < 0.84:
+        k = rng.choice(DICT_SUBCLASS_KINDS)
+    elif r < 0.94:
+        k = "mapping"
+    else:
+        k = "tuple" if r < 0.98 else "scalar"
     return {"k": k, "items": items}
 
 
